@@ -256,11 +256,127 @@ type sparseScenario struct {
 // (lockPgno-2, lockPgno-1 = exactly 1 GiB, lockPgno, lockPgno+1), each followed
 // by growth of 1, 2 and several pages in one incremental sync; chained growths
 // reuse the 1 GiB first sync.
+// isFull: the file must carry the whole database (MinTXID 1, snapshot level) or does carry it
+// (a snapshotting sync in the chain, e.g. after a WAL restart).
+func isFull(o ltxObs, lock uint32) bool {
+	if o.hdr.MinTXID == 1 || o.level == litestream.SnapshotLevel {
+		return true
+	}
+	n := o.hdr.Commit
+	if lock <= o.hdr.Commit {
+		n--
+	}
+	return o.hdr.Commit > 0 && uint32(len(o.pgnos)) == n
+}
+
+// srcPage is a self-describing page: kind 1 = "bytes of the database file at offset off",
+// kind 2 = "bytes of the WAL at offset off".
+func srcPage(ps uint32, kind uint32, off uint64) []byte {
+	b := make([]byte, ps)
+	copy(b, "VRFS")
+	binary.BigEndian.PutUint32(b[4:], kind)
+	binary.BigEndian.PutUint64(b[8:], off)
+	for i := 16; i+8 <= len(b); i += 8 {
+		binary.BigEndian.PutUint64(b[i:], (off+1)*0x9E3779B97F4A7C15+uint64(i)*uint64(kind+7))
+	}
+	return b
+}
+
+// srcOf recognises a self-describing page; (3,0) = all zero, (9,hash) = anything else.
+func srcOf(b []byte) (uint32, uint64) {
+	if len(b) >= 16 && string(b[:4]) == "VRFS" {
+		k, o := binary.BigEndian.Uint32(b[4:]), binary.BigEndian.Uint64(b[8:])
+		if bytes.Equal(b, srcPage(uint32(len(b)), k, o)) {
+			return k, o
+		}
+	}
+	if bytes.Equal(b, make([]byte, len(b))) {
+		return 3, 0
+	}
+	return 9, pageID(b) & 0xffffffff
+}
+
+// ltxPages decodes the given pages of an LTX file through its page index.
+func ltxPages(b []byte, want []uint32) (map[uint32][]byte, error) {
+	szOff := len(b) - ltx.TrailerSize - 8
+	if szOff < ltx.HeaderSize {
+		return nil, fmt.Errorf("short file")
+	}
+	sz := int(binary.BigEndian.Uint64(b[szOff:]))
+	if sz <= 0 || sz > szOff {
+		return nil, fmt.Errorf("bad index size")
+	}
+	idx, err := ltx.DecodePageIndex(bytes.NewReader(b[szOff-sz:]), 0, 0, 0)
+	if err != nil {
+		return nil, err
+	}
+	out := map[uint32][]byte{}
+	for _, p := range want {
+		el, ok := idx[p]
+		if !ok {
+			continue
+		}
+		if el.Offset < 0 || el.Offset+el.Size > int64(len(b)) {
+			return nil, fmt.Errorf("page index entry of page %d out of range", p)
+		}
+		_, data, err := ltx.DecodePageData(b[el.Offset : el.Offset+el.Size])
+		if err != nil {
+			return nil, fmt.Errorf("page %d: %w", p, err)
+		}
+		out[p] = data
+	}
+	return out, nil
+}
+
+// checkFileContent: every patterned database-file page a full encoding holds must carry the
+// bytes of its own file offset.
+func (e *emitter) checkFileContent(path string, ps uint32, patterned map[uint32]bool) string {
+	if len(patterned) == 0 {
+		return ""
+	}
+	b, err := os.ReadFile(path)
+	if err != nil {
+		return err.Error()
+	}
+	var want []uint32
+	for p := range patterned {
+		want = append(want, p)
+	}
+	sort.Slice(want, func(i, j int) bool { return want[i] < want[j] })
+	pages, err := ltxPages(b, want)
+	if err != nil {
+		return err.Error()
+	}
+	for _, p := range want {
+		data, ok := pages[p]
+		if !ok {
+			return fmt.Sprintf("page %d (in the database file before the first sync) is missing from the file", p)
+		}
+		k, o := srcOf(data)
+		if k != 1 || o != uint64(p-1)*uint64(ps) {
+			desc := "other bytes"
+			switch k {
+			case 1:
+				desc = fmt.Sprintf("the bytes of database-file page %d", o/uint64(ps)+1)
+			case 3:
+				desc = "an empty page"
+			}
+			return fmt.Sprintf("page %d holds %s instead of the bytes at its own offset in the database file", p, desc)
+		}
+		e.extra["database-file pages of full encodings compared content-wise"]++
+		if p > ltx.LockPgno(ps) {
+			e.extra["... of which beyond the lock page"]++
+		}
+	}
+	return ""
+}
+
 func boundaryHistories(ps uint32, followFirst bool) []sparseScenario {
 	h := func(delta int, follow bool, g ...int) sparseScenario {
 		return sparseScenario{ps, delta, fmt.Sprintf("prev=lock%+d growth=%v", delta, g), g, follow, false}
 	}
 	return []sparseScenario{
+		{ps, 4, "first sync with database-file pages beyond the lock page, growth=[1]", []int{1}, false, true},
 		h(-1, followFirst, 2, 5), // exactly 1 GiB, then across the lock page
 		h(-2, false, 1, 1, 1, 2), // lock-2 -> lock-1 -> lock+1 -> lock+2 -> lock+4
 		h(-1, false, 5),
@@ -291,10 +407,10 @@ func (e *emitter) sparseDatabases(r *rand.Rand, dir, tier string) error {
 		// first: previous synced size exactly 1 GiB (lock page is the next page), growth across
 		// the lock page in one incremental sync, then snapshot / compaction / restore
 		bh := boundaryHistories(65536, false)
-		scs = append(scs, bh[:6]...)
+		scs = append(scs, bh[:7]...)
 		scs = append(scs, sparseScenario{65536, -1, "lock-next-page-then-inside", nil, true, true})
-		scs = append(scs, bh[6:]...)
-		scs = append(scs, boundaryHistories(4096, false)[:2]...)
+		scs = append(scs, bh[7:]...)
+		scs = append(scs, boundaryHistories(4096, false)[:3]...)
 		scs = append(scs, sparseScenario{65536, 0, "lock-last-page", nil, true, false}, sparseScenario{65536, -3, "lock-beyond-then-inside", nil, true, false})
 		switch os.Getenv("VERIF_LTX_SCENARIO") {
 		case "4096":
@@ -408,6 +524,18 @@ func (e *emitter) sparseOne(r *rand.Rand, dir string, sc sparseScenario, decodeA
 	if err := f.Truncate(int64(n0) * int64(ps)); err != nil {
 		return err
 	}
+	// self-describing, mutually different pages in the database FILE on both sides of the lock
+	// page (never referenced by SQLite, so they stay as written): a full-database encoding must
+	// reproduce each of them from its own file offset
+	patterned := map[uint32]bool{}
+	for p := lock - 3; p <= n0 && p <= lock+8; p++ {
+		if p != lock && p > 4 {
+			if _, err := f.WriteAt(srcPage(ps, 1, uint64(p-1)*uint64(ps)), int64(p-1)*int64(ps)); err != nil {
+				return err
+			}
+			patterned[p] = true
+		}
+	}
 	if err := f.Close(); err != nil {
 		return err
 	}
@@ -492,6 +620,19 @@ func (e *emitter) sparseOne(r *rand.Rand, dir string, sc sparseScenario, decodeA
 	lap("replica sync")
 	wal2 := wal1
 	if sc.follow {
+	// move every page (also those beyond the lock page) into the database FILE and restart the
+	// WAL, then one small write: the snapshot below takes page 1.. from the WAL and the grown
+	// pages on both sides of the lock page from the file
+	if err := db.Checkpoint(ctx, litestream.CheckpointModeTruncate); err != nil {
+		return fmt.Errorf("checkpoint (TRUNCATE) before the snapshot: %w", err)
+	}
+	if err := exec("UPDATE t SET v = randomblob(70) WHERE id = 2"); err != nil {
+		return err
+	}
+	if err := db.Sync(ctx); err != nil {
+		return fmt.Errorf("sync after checkpoint: %w", err)
+	}
+	lap("checkpoint+sync")
 	if _, err := db.Snapshot(ctx); err != nil {
 		return fmt.Errorf("snapshot: %w", err)
 	}
@@ -533,6 +674,13 @@ func (e *emitter) sparseOne(r *rand.Rand, dir string, sc sparseScenario, decodeA
 				return fmt.Errorf("read ltx file level %d %s: %w", level, en.Name(), err)
 			}
 			obs = append(obs, o)
+			if isFull(o, lock) {
+				if bad := e.checkFileContent(filepath.Join(c.LTXLevelDir(level), en.Name()), ps, patterned); bad != "" {
+					e.violation("C17/full-encoding-page-content-differs",
+						fmt.Sprintf("page size %d, scenario %s, level %d file %s (commit %d, lock page %d): %s", ps, sc.name, level, en.Name(), o.hdr.Commit, lock, bad),
+						map[string]any{"scenario": cls, "how": "./check C17 re-runs the scenario"})
+				}
+			}
 		}
 	}
 	commitAt := map[ltx.TXID]uint32{}
@@ -547,18 +695,28 @@ func (e *emitter) sparseOne(r *rand.Rand, dir string, sc sparseScenario, decodeA
 	if want := 1 + len(sc.growths); sc.growths != nil && len(commitAt) < want {
 		return fmt.Errorf("expected at least %d level-0 files (snapshot + one per growth transaction), found %d", want, len(commitAt))
 	}
-	wal := wal2
-	if len(wal1) > len(wal2) {
-		wal = wal1
+	walFor := func(h ltx.Header) []byte {
+		for _, w := range [][]byte{wal1, wal2} {
+			if len(w) >= 32 && binary.BigEndian.Uint32(w[16:]) == h.WALSalt1 && binary.BigEndian.Uint32(w[20:]) == h.WALSalt2 &&
+				int64(len(w)) >= h.WALOffset+h.WALSize {
+				return w
+			}
+		}
+		return nil
 	}
 	for _, o := range obs {
-		full := o.hdr.MinTXID == 1 || o.level == litestream.SnapshotLevel
+		full := isFull(o, lock)
+		if full && o.hdr.MinTXID != 1 {
+			e.extra["in-chain full encodings (snapshotting sync with MinTXID > 1)"]++
+		}
 		prev := commitAt[o.hdr.MinTXID-1]
 		runs := toRuns(o.pgnos)
 		fcls := fmt.Sprintf("%s/level%d", cls, o.level)
 		e.cw.Add("ltx_file_ok", L(U(uint64(ps)), B(full), U(uint64(prev)), U(uint64(o.hdr.Commit)), runsSx(runs)), I(1), fcls, true)
 		if full {
 			e.cw.Add("ltx_snapshot_pgnos", L(U(uint64(ps)), U(uint64(o.hdr.Commit))), L(U(uint64(lock)), runsSx(runs)), fcls+"/full", true)
+		} else if wal := walFor(o.hdr); o.level == 0 && wal == nil {
+			e.extra["incremental files whose WAL generation was gone when inspected (ltx_file_ok only)"]++
 		} else if o.level == 0 {
 			keys := walKeys(wal, ps, o.hdr.WALOffset, o.hdr.WALSize, o.hdr.Commit)
 			ks := make(SxList, 0, len(keys))
@@ -868,31 +1026,86 @@ func (e *emitter) walGrid(r *rand.Rand, dir string) error {
 	return nil
 }
 
-// dbGrid: writeLTXFromDB for commits around the lock page (1 GiB of hole per call).
-func (e *emitter) dbGrid(dir, tier string) error {
-	sizes := []uint32{65536}
+// dbGrid: the REAL writeLTXFromDB for commits around the lock page, on a database file and a
+// WAL whose pages are self-describing (srcPage), on both sides of the lock page: observed are
+// the emitted page numbers (ltx_db_encode) and, for the patterned pages, WHERE the encoded
+// bytes came from (ltx_db_content). 1 GiB of (mostly hole) database per call.
+func (e *emitter) dbGrid(dir, tier string, seed int64) error {
+	_ = seed
+	sizes := []uint32{65536, 4096}
 	if tier == "thorough" {
 		sizes = allPageSizes
 	}
+	done := map[uint32]bool{}
 	for _, ps := range sizes {
+		if done[ps] {
+			continue
+		}
+		done[ps] = true
+		t0 := time.Now()
 		g, err := newGridFiles(dir, ps)
 		if err != nil {
 			return err
 		}
 		lock := ltx.LockPgno(ps)
-		for _, c := range []struct {
+		filePages := []uint32{1, 2, 3, lock - 3, lock - 2, lock - 1}
+		for p := lock + 1; p <= lock+6; p++ {
+			filePages = append(filePages, p)
+		}
+		for _, p := range filePages {
+			if _, err := g.db.WriteAt(srcPage(ps, 1, uint64(p-1)*uint64(ps)), int64(p-1)*int64(ps)); err != nil {
+				return err
+			}
+		}
+		fs := int64(24 + ps)
+		for k := int64(0); k < 6; k++ {
+			if _, err := g.wal.WriteAt(srcPage(ps, 2, uint64(32+k*fs+24)), 32+k*fs+24); err != nil {
+				return err
+			}
+		}
+		frame := func(k int64) int64 { return 32 + k*fs }
+		type dbCase struct {
 			snap   bool
 			commit uint32
-		}{{true, lock - 1}, {true, lock}, {false, lock + 1}, {true, lock + 3}} {
-			if tier != "thorough" && c.commit == lock-1 {
-				continue
+			pm     map[uint32]int64
+		}
+		cases := []dbCase{
+			{true, lock + 6, map[uint32]int64{}},                                                                               // every page from the file
+			{true, lock + 6, map[uint32]int64{2: frame(0), lock - 2: frame(1), lock + 2: frame(2), lock + 5: frame(3)}}, // WAL and file on both sides
+		}
+		if tier == "thorough" || ps == 65536 {
+			cases = append(cases, dbCase{false, lock + 3, map[uint32]int64{lock - 1: frame(4), lock + 1: frame(5)}})
+		} else {
+			cases = cases[1:] // quick, smaller pages: the mixed WAL / file case only
+		}
+		if tier == "thorough" {
+			cases = append(cases, dbCase{true, lock, map[uint32]int64{1: frame(0)}},
+				dbCase{true, lock - 1, map[uint32]int64{lock - 1: frame(0)}})
+		}
+		probes := append(append([]uint32{}, filePages...), lock, lock+7)
+		sort.Slice(probes, func(i, j int) bool { return probes[i] < probes[j] })
+		for _, c := range cases {
+			var pmKeys []uint32
+			for k := range c.pm {
+				pmKeys = append(pmKeys, k)
 			}
-			obs := func() (o Sx) {
+			sort.Slice(pmKeys, func(i, j int) bool { return pmKeys[i] < pmKeys[j] })
+			pmSx := make(SxList, 0, len(pmKeys))
+			for _, k := range pmKeys {
+				pmSx = append(pmSx, L(U(uint64(k)), I(c.pm[k])))
+			}
+			prSx := make(SxList, 0, len(probes))
+			for _, p := range probes {
+				prSx = append(prSx, U(uint64(p)))
+			}
+			var obsPg, obsContent Sx
+			func() {
 				defer func() {
 					if p := recover(); p != nil {
-						o = L(I(9), L())
+						obsPg, obsContent = L(I(9), L()), L(I(9), L())
 					}
 				}()
+				fail := func(st int64) { obsPg, obsContent = L(I(st), L()), L(I(st), L()) }
 				var buf bytes.Buffer
 				enc, _ := ltx.NewEncoder(&buf)
 				min := ltx.TXID(2)
@@ -900,23 +1113,44 @@ func (e *emitter) dbGrid(dir, tier string) error {
 					min = 1
 				}
 				if err := enc.EncodeHeader(ltx.Header{Version: ltx.Version, Flags: ltx.HeaderFlagNoChecksum, PageSize: ps, Commit: c.commit, MinTXID: min, MaxTXID: 2}); err != nil {
-					return L(I(2), L())
+					fail(2)
+					return
 				}
-				if err := litestream.WriteLTXFromDBVerif(context.Background(), g.db, g.wal, int(ps), enc, c.commit, map[uint32]int64{2: 32, lock + 1: 32}); err != nil {
-					return L(I(classify(err)), L())
+				if err := litestream.WriteLTXFromDBVerif(context.Background(), g.db, g.wal, int(ps), enc, c.commit, c.pm); err != nil {
+					fail(classify(err))
+					return
 				}
 				if err := enc.Close(); err != nil {
-					return L(I(classify(err)), L())
+					fail(classify(err))
+					return
 				}
 				pgnos, err := pageIndexPgnos(buf.Bytes())
 				if err != nil {
-					return L(I(51), L())
+					fail(51)
+					return
 				}
-				return L(I(0), runsSx(toRuns(pgnos)))
+				obsPg = L(I(0), runsSx(toRuns(pgnos)))
+				pages, err := ltxPages(buf.Bytes(), probes)
+				if err != nil {
+					obsContent = L(I(51), L())
+					return
+				}
+				l := make(SxList, 0, len(probes))
+				for _, p := range probes {
+					if data, ok := pages[p]; ok {
+						k, o := srcOf(data)
+						l = append(l, L(U(uint64(p)), U(uint64(k)), U(o)))
+					} else {
+						l = append(l, L(U(uint64(p)), I(0), I(0)))
+					}
+				}
+				obsContent = L(I(0), l)
 			}()
-			e.cw.Add("ltx_db_encode", L(B(c.snap), U(uint64(ps)), U(uint64(c.commit))), obs, "db-grid", true)
+			e.cw.Add("ltx_db_encode", L(B(c.snap), U(uint64(ps)), U(uint64(c.commit))), obsPg, "db-grid/pgnos", true)
+			e.cw.Add("ltx_db_content", L(B(c.snap), U(uint64(ps)), U(uint64(c.commit)), pmSx, prSx), obsContent, "db-grid/content", true)
 		}
 		g.close()
+		e.extra[fmt.Sprintf("db-grid ps=%d ms", ps)] = int(time.Since(t0).Milliseconds())
 	}
 	return nil
 }
